@@ -81,9 +81,18 @@ def gen_card(rs):
                     card["particle"][nm] = {"J": J, "P": P, "mass": round(base["mass"] + 0.05 * j, 3), "width": base["width"]}
                     names.append(nm)
                 card["particle"][s] = names
-        if rs.chance(0.3):
+        if rs.chance(0.4):
             # a weak decay at the top: parity is not conserved there
-            card["decay"]["A"] = [d + [{"p_break": True}] for d in card["decay"]["A"]]
+            # (declared per decay: for all decays of A, for the first one only, or for a seeded subset)
+            how = rs.choice(["all", "first", "first", "subset"])
+            if rs.chance(0.6):
+                # one final-state particle of the other parity: now the top decay of every chain is parity
+                # violating exactly when the resonance decay is parity conserving - p_break decides the chain
+                card["particle"]["$finals"]["D"]["P"] = 1
+            card["decay"]["A"] = [d + [{"p_break": True}] if (how == "all" or (how == "first" and i == 0) or (how == "subset" and rs.chance(0.5))) else d for i, d in enumerate(card["decay"]["A"])]
+        if rs.chance(0.5):
+            # options shared by all decays of the top particle, declared once on the particle
+            card["particle"]["$top"]["A"]["decay_params"] = {"barrier_factor_norm": rs.chance(0.5)}
     if kind in ("S3", "V3") and rs.chance(0.5):
         # constraints declared in the card: floating mass with a range, fixed chain, Gaussian constraint
         res = [k for k, v in card["particle"].items() if isinstance(v, dict) and k.startswith(("R_", "X")) and "mass" in v]
